@@ -311,7 +311,10 @@ parser! {
     // 1.2.3.2 Time of day and date
     rule time_of_day() -> TimeOfDayLiteral = tok(TokenType::TimeOfDay) tok(TokenType::Hash) d:daytime() { TimeOfDayLiteral::new(d) }
     rule daytime() -> Time = h:day_hour() tok(TokenType::Colon) m:day_minute() tok(TokenType::Colon) s:day_second() {?
-      Time::from_hms(h.try_into().map_err(|e| "hour")?, m.try_into().map_err(|e| "min")?, s.whole as u8).map_err(|e| "time")
+      // A value that does not fit is an error rather than being truncated. The fraction is in units of 10^-15 second.
+      let sec: u8 = s.whole.try_into().map_err(|e| "sec")?;
+      let nano = (s.femptos / 1_000_000) as u32;
+      Time::from_hms_nano(h.try_into().map_err(|e| "hour")?, m.try_into().map_err(|e| "min")?, sec, nano).map_err(|e| "time")
     }
     rule day_hour() -> Integer = integer()
     rule day_minute() -> Integer = integer()
